@@ -684,6 +684,91 @@ theorem constant_channel_singular (rows : List (Row K)) (dof : K) (p j : Nat) (h
 def prec_complete_full : Prop :=
   ∀ (cov : Mat K) (p : Nat), (Matrix.of fun (j k : Fin p) => cov j k).det ≠ 0 → (precOf cov p).isSome
 
+/-! ### Channel scales (round 5)
+
+   The property demands `P · C = I` of *every* channel, whatever its unit.  The two theorems below are
+   what the engine's scale-aware judgement rests on: (1) rescaling the channels by any non-zero factors
+   `d j` (the engine uses exact powers of two) maps inverses to inverses, so `P` is the inverse of `C` iff
+   `D P D` is the inverse of the equilibrated `D⁻¹ C D⁻¹`; (2) the precision of a diagonal covariance
+   ('diag', or a shrinkage estimate that reached its target) is entry-wise the reciprocal variance —
+   `P_jj · C_jj = 1` for every channel, nothing off the diagonal — so a "precision" with a zero where a
+   channel of small variance sits is not one. -/
+
+/-- equilibration: `B` is a right inverse of `cov` on the `p × p` block **iff** `D B D` is a right inverse
+    of `D⁻¹ cov D⁻¹`, for every diagonal scaling `D = diag (d j)` with non-zero entries -/
+theorem prec_equilibrated (cov B : Mat K) (p : Nat) (d : Nat → K) (hd : ∀ j, d j ≠ 0) :
+    (∀ j k, j < p → k < p → mmul p cov B j k = if j = k then 1 else 0) ↔
+    (∀ j k, j < p → k < p →
+      mmul p (fun j k => cov j k / (d j * d k)) (fun j k => d j * B j k * d k) j k
+        = if j = k then 1 else 0) := by
+  have key : ∀ j k, mmul p (fun j k => cov j k / (d j * d k)) (fun j k => d j * B j k * d k) j k
+      = d k / d j * mmul p cov B j k := by
+    intro j k
+    rw [mmul_eq_finset, mmul_eq_finset, Finset.mul_sum]
+    apply Finset.sum_congr rfl
+    intro l _
+    have := hd l
+    have := hd j
+    field_simp
+  constructor
+  · intro h j k hj hk
+    rw [key, h j k hj hk]
+    by_cases hjk : j = k
+    · subst hjk; simp [hd j]
+    · simp [hjk]
+  · intro h j k hj hk
+    have h1 := h j k hj hk
+    rw [key] at h1
+    by_cases hjk : j = k
+    · subst hjk
+      simpa [hd j] using h1
+    · simp only [hjk, if_false] at h1 ⊢
+      have hne : d k / d j ≠ 0 := div_ne_zero (hd k) (hd j)
+      exact (mul_eq_zero.mp h1).resolve_left hne
+
+/-- the precision of a diagonal covariance is entry-wise the reciprocal: `C_jj · P_jj = 1` for **every**
+    channel `j < p` (however small `C_jj` is next to the others) and `P` is diagonal -/
+theorem diagonal_precision_entrywise (cov B : Mat K) (p : Nat)
+    (hdiag : ∀ j k, j < p → k < p → j ≠ k → cov j k = 0)
+    (h : ∀ j k, j < p → k < p → mmul p cov B j k = if j = k then 1 else 0) :
+    (∀ j, j < p → cov j j * B j j = 1) ∧ (∀ j k, j < p → k < p → j ≠ k → B j k = 0) := by
+  have key : ∀ j k, j < p → k < p → mmul p cov B j k = cov j j * B j k := by
+    intro j k hj hk
+    rw [mmul_eq_finset]
+    rw [Finset.sum_eq_single j]
+    · intro l hl hlj
+      rw [hdiag j l hj (Finset.mem_range.mp hl) (Ne.symm hlj), zero_mul]
+    · intro hnot
+      exact absurd (Finset.mem_range.mpr hj) hnot
+  have hone : ∀ j, j < p → cov j j * B j j = 1 := by
+    intro j hj
+    have := h j j hj hj
+    rw [key j j hj hj] at this
+    simpa using this
+  refine ⟨hone, ?_⟩
+  intro j k hj hk hjk
+  have h1 := h j k hj hk
+  rw [key j k hj hk] at h1
+  simp only [hjk, if_false] at h1
+  have hne : cov j j ≠ 0 := left_ne_zero_of_mul_eq_one (hone j hj)
+  exact (mul_eq_zero.mp h1).resolve_left hne
+
+/-- 'diag': whatever precision the model returns, every channel's entry times that channel's variance
+    is one — for every residual matrix, dof and channel scale (this is what `np.linalg.pinv`, which drops
+    the channels whose variance is below 1e-15 × the largest, breaks) -/
+theorem diag_precision_is_reciprocal_variance (rows : List (Row K)) (dof : Option K) (p : Nat) (B : Mat K)
+    (h : precOf (covFromResiduals .diag rows dof p) p = some B) :
+    (∀ j, j < p → covFromResiduals .full rows dof p j j * B j j = 1) ∧
+    (∀ j k, j < p → k < p → j ≠ k → B j k = 0) := by
+  have hcert := (prec_is_inverse _ B p h).1
+  have hd := diagonal_precision_entrywise (covFromResiduals .diag rows dof p) B p
+    (by intro j k _ _ hjk; rw [diag_is_diagonal_of_full]; simp [hjk]) hcert
+  refine ⟨?_, hd.2⟩
+  intro j hj
+  have := hd.1 j hj
+  rw [diag_is_diagonal_of_full] at this
+  simpa using this
+
 /-! ### Sessions on one dataset object: estimate → in-place change → estimate again
 
   `runSession` threads the content of the object through `sort_by`, descriptor and measurement
@@ -796,6 +881,16 @@ def exObs : List (Obs ℚ) := [(7, fun j => if j = 0 then 1 else 2), (2, fun j =
   (4, fun j => if j = 0 then -2 else 0)]
 
 local instance : Rsa.HasSqrt ℚ := ⟨fun x => x⟩
+
+-- `diag_precision_is_reciprocal_variance` / `prec_equilibrated` (round 5): two channels whose variances
+-- differ by 2^100 (> 1e30) — the model inverts the 'diag' estimate; the precision of the small channel is
+-- 2^100 / 2, not 0; and the equilibrated pair (d = 1, 2^-50) is the well-conditioned diag(2,2) / diag(1/2,1/2)
+example :
+    let rows : List (Row ℚ) := [fun j => if j = 0 then 1 else 1 / 2 ^ 50,
+                                fun j => if j = 0 then -1 else -1 / 2 ^ 50]
+    (precOf (covFromResiduals .diag rows none 2) 2).map (fun B => (B 0 0, B 1 1, B 0 1))
+      = some (1 / 2, 2 ^ 100 / 2, 0) := by
+  decide +kernel
 
 -- `measurements_eq_unbalanced_on_balanced`: a balanced design exists
 example : balancedR (groups exObs) = some 2 := by decide
